@@ -320,8 +320,7 @@ def encCase (routes : List Route) (hasErrs : Bool) (errs : List Route) (r : Req)
 
 /-- counter-example lines replayed on the implementation on every run (see Witness.lean) -/
 def witnessLines : List String :=
-  [ encCase wDownstreamRoutes false [] wReq,
-    encCase wRewriteRoutes true wRewriteErrs wReq,
+  [ encCase wRewriteRoutes true wRewriteErrs wReq,
     encCase wStaleRoutes true wStaleErrs wReq,
     encCase (wOrderRoutes wSetA) false [] wReq,
     encCase (wOrderRoutes wSetB) false [] wReq ]
